@@ -204,7 +204,7 @@ func c01Cached(c *Ctx) {
 	}
 	for i, s := range sinks {
 		ret := s.Instr.(*ssa.Return)
-		call, idx := callOf(ret.Results[0])
+		call, idx := callOf(retResult(ret, 0))
 		ok := call != nil && idx == 1 && verifySpec.matches(call)
 		c.Check(ok, "C01.cached", fmt.Sprintf("return#%d", i), c.instrPos(ret), "returns verify's verdict", "a possibly-nil return that is not verify's error result")
 	}
